@@ -85,6 +85,12 @@ func leafFields(v reflect.Value, path string, out *[]leaf) {
 		}
 	case reflect.Int, reflect.Int32, reflect.Int64, reflect.Uint32, reflect.Uint64, reflect.Bool:
 		*out = append(*out, leaf{path, v})
+	case reflect.String:
+		// addresses, denoms, channel ids: the edge is the empty string (a proposal assembled from the
+		// module's default parameters carries it wherever genesis initialisation fills in a derived value)
+		if v.CanSet() && v.String() != "" {
+			*out = append(*out, leaf{path, v})
+		}
 	}
 }
 
@@ -144,6 +150,9 @@ func (a *GovEdgeAgent) Step(s *Sim) {
 		desc := ""
 		zero := r.IntN(3) == 0 // zero is the edge most often forgotten (denominators, modulus)
 		switch {
+		case lf.v.Kind() == reflect.String:
+			lf.v.SetString("")
+			desc = `""`
 		case zero && lf.v.Type() == typDec:
 			lf.v.Set(reflect.ValueOf(sdkmath.LegacyZeroDec()))
 			desc = "0"
